@@ -1190,6 +1190,14 @@ M("C12.rev_fix_grpc_status_trailers_only", ["C12"], "emitter/otlp/src/client.rs"
                                 .unwrap_or(0);""",
   """                            let mut status = 0;""", "C12.R5:grpc-status-in-headers")
 
+# ---- reverse patch of fix 3f51424 (D27: HTTP status ignored on the gRPC transport) --------------------------------------------------------------
+M("C12.rev_fix_grpc_ignores_http_status", ["C12"], "emitter/otlp/src/client.rs",
+  """                            if !(http_status >= 200 && http_status < 300) {""",
+  """                            if false && !(http_status >= 200 && http_status < 300) {""", "C12.R5")
+M("C12.grpc_http_status_range_off", ["C12"], "emitter/otlp/src/client.rs",
+  """                            if !(http_status >= 200 && http_status < 300) {""",
+  """                            if !(http_status >= 200 && http_status <= 300) {""", "C12.R5:status")
+
 # ---- round 6 (own probing of the blocking entry points): Trigger, send_or_wait, callbacks ------------------------------------------
 M("C07.wait_zero_timeout_reports_flushed", ["C07"], "batcher/src/sync.rs",
   "            if timeout == Duration::ZERO {\n                return false;", "            if timeout == Duration::ZERO {\n                return true;", "C07.R4:Trigger")
